@@ -191,6 +191,9 @@ func c04Accessors(c *fw.Ctx, label string, root dst.Node) {
 
 var c04HookMu sync.Mutex
 
+// c04SeenSingle: (type.point) keys already decorated on their own by this worker.
+var c04SeenSingle = map[string]bool{}
+
 // c04Restore restores f while recording Dec hook events.
 func c04Restore(f *dst.File) (*decorator.Restorer, *ast.File, []string, string) {
 	c04HookMu.Lock()
@@ -562,8 +565,21 @@ func runC04(c *fw.Ctx) {
 			})
 			rr := c.Rand(in.id + "/one")
 			nsites := c.Pick(25, 120)
-			for t := 0; t < nsites && len(slots) > 0; t++ {
+			// sites are stratified by (node type, point): points this worker has not decorated
+			// singly yet come first, so rarely used constructs get their turn
+			var fresh []slot
+			for _, sl := range slots {
+				k := refl.TypeName(sl.n) + "." + sl.point
+				if !c04SeenSingle[k] {
+					c04SeenSingle[k] = true
+					fresh = append(fresh, sl)
+				}
+			}
+			for t := 0; t < nsites+len(fresh) && len(slots) > 0; t++ {
 				s := slots[rr.Intn(len(slots))]
+				if t < len(fresh) {
+					s = fresh[t]
+				}
 				saved := *s.d
 				kind, text := "block", fmt.Sprintf("/*#one%d*/", t)
 				_, isDecl := s.n.(dst.Decl)
